@@ -32,7 +32,8 @@ MANIFEST = {
             'every reachable store; read() onto a NON-fresh object: exact post-read store (extension library kept when '
             'the file has no [EXTENSIONS] section), invariant preserved, a stale extension-library keymap entry cannot '
             'make add_block resolve to a wrong id, refuted (computed witness) for a reader that keeps the old trigger '
-            'library. '
+            'library; storing by the id register_* returned equals storing by value, an id from another Sequence is '
+            'refuted. '
             'Random label programs (all 21 labels, SET/INC, negative/zero/boolean values, several labels and '
             'triggers/outputs per block, shared/subset/reordered extension sets, mixed with RF/gradient/ADC events) '
             'run on the implementation and on the extracted model: store after every add_block, chains, get_block '
